@@ -205,9 +205,9 @@ def run_history(hist, gen=None, nmax=0):
         st.op = op
         st.cls = G.classify(g, op, reg)
         names_before.append(([b.name for b in g.blocklist], [id(b) for b in g.blocklist]) if op[0] == 'rename_blocks' else None)
-        if op[0] in ('minc', 'embed'):
+        if op[0] in ('minc', 'embed', 'embed_standalone'):
             inexact = True
-        hv = g.block[op[2]].volume if (op[0] == 'embed' and op[2] in g.block) else None
+        hv = g.block[op[2]].volume if (op[0] in ('embed', 'embed_standalone') and op[2] in g.block) else None
         a = G.apply_op(g, op, reg)
         g = a.grid
         if hv is not None and a.exc is None and a.flag and op[2] in g.block:
@@ -262,6 +262,7 @@ CORPUS = {
     'rename-fixable-names': (None, connected3() + [['rename_blocks', [[N4[0], 'ab1 5'], [N4[1], 'ab2 7']], True]], 'ok'),
     'rename-short-name-indexerror': (None, connected3() + [['rename_blocks', [[N4[0], 'ab']], True]], 'ok'),
     'misuse-rename-collides': (None, connected3() + [['rename_blocks', [[N4[0], N4[1]]], True]], 'misuse'),
+    'rename-map-key-listed-twice': (None, connected3() + [['rename_blocks', [[N4[0], N4[0]], [N4[1], N4[3]], [N4[0], N4[1]]], False]], 'ok'),
     'misuse-add_block-unregistered-rock': (None, connected3() + [['add_block', N4[3], R2[1], 1.0, None]], 'misuse'),
     'misuse-add_connection-foreign-block': (None, connected3() + [['add_connection', N4[0], N4[3], PAY]], 'misuse'),
     'misuse-self-connection': (None, connected3() + [['add_connection', N4[0], N4[0], PAY], ['delete_connection', N4[0], N4[0]]], None),
@@ -282,6 +283,7 @@ CORPUS = {
                                                        ['sort_rocktypes'], ['clean_rocktypes'], ['delete_block', N4[3]]], 'ok'),
     'add-right-then-embed': (None, connected3() + [['add', SPEC_EF, False], ['embed', {'rocks': [['r4   ', 4]], 'blocks': [['GG  1', 'r4   ', 0.25, None], ['HH  1', 'r4   ', 0.125, None]], 'cons': [[0, 1, PAY]]}, N4[0], 'GG  1', PAY2],
                                                    ['delete_block', 'GG  1'], ['clean_rocktypes']], 'ok'),
+    'embed-standalone-host': (None, connected3() + [['embed_standalone', SPEC_EF, N4[2], 'EE  1', PAY2, 4.0], ['embed_standalone', SPEC_EF, N4[0], 'EE  1', PAY2, 64.0]], None),
     'embed-too-big-and-duplicate': (None, connected3() + [['embed', {'rocks': [['r4   ', 4]], 'blocks': [['GG  1', 'r4   ', 8.0, None]], 'cons': []}, N4[0], 'GG  1', PAY],
                                                           ['embed', {'rocks': [['r4   ', 4]], 'blocks': [[N4[1], 'r4   ', 0.125, None]], 'cons': []}, N4[0], N4[1], PAY]], 'ok'),
     'fromgeo-rect-atm0': ({'geo': {'dx': [10., 20.], 'dy': [10.], 'dz': [5., 5.], 'atmos': 0}}, [['reorder', None, None], ['clean_rocktypes']], 'ok'),
@@ -333,7 +335,7 @@ def static_alphabet():
     s1 = {'rocks': [[R2[1], 2]], 'blocks': [[N4[2], R2[1], 0.25, None], [N4[3], R2[1], 0.25, None]], 'cons': [[0, 1, PAY]]}
     s2 = {'rocks': [[R2[0], 2]], 'blocks': [[N4[3], R2[0], 0.25, None]], 'cons': []}
     for s in (s1, s2):
-        ops += [['add', s, True], ['add', s, False], ['embed', s, N4[0], N4[3], PAY]]
+        ops += [['add', s, True], ['add', s, False], ['embed', s, N4[0], N4[3], PAY], ['embed_standalone', s, N4[0], N4[3], PAY, 1.0]]
     return ops
 
 
@@ -421,12 +423,14 @@ def exhaustive(ctx, res, budget_s, max_depth, full):
     # whatever the model does not explain
     if not full and len(fstates) > 40:
         fstates = rng.sample(fstates, 40)
+    elif full and len(fstates) > 1500:
+        fstates = rng.sample(fstates, 1500)
     follow = [o for o in static if o[0] not in ('add_connection', 'delete_connection', 'embed')] + \
              [['delete_connection', N4[0], N4[1]], ['delete_connection', N4[1], N4[2]], ['add_connection', N4[0], N4[2], PAY]]
     t1 = time.time()
     nf = 0
     for path in fstates:
-        if time.time() - t1 > budget_s * 0.6:
+        if time.time() - t1 > budget_s * (0.6 if not full else 0.35):
             break
         nf += 1
         for op in follow:
@@ -578,6 +582,9 @@ def random_op(g, rng, valid_only, state, reg=None):
             small = [b.name for b in g.blocklist if b.volume < 1e9]
             host = rng.choice(small or names)
             op = [k, s, host if not wild else fresh_name(rng, set(names)), s['blocks'][0][0], random_pay(rng)]
+            if rng.random() < 0.4:
+                hv = g.block[op[2]].volume if op[2] in g.block else 1.0
+                op = ['embed_standalone'] + op[1:] + [float(rng.choice([hv, hv, 2 * hv, 64.0]))]
         elif k == 'readd_block':
             gone = [b.name for b in reg.blocks if not any(b is x for x in g.blocklist)]
             if gone: op = [k, rng.choice(gone)]
@@ -704,12 +711,12 @@ def run(ctx, scale=1.0, oracle_only=False):
             raise RuntimeError('corpus case %s: harness classifies the last operation as %s, expected %s' % (h.name, got, want))
     # exhaustive
     tt = time.time()
-    eh, el = exhaustive(ctx, res, ctx.n(12, 360) * scale, ctx.n(2, 3), not ctx.quick)
+    eh, el = exhaustive(ctx, res, ctx.n(12, 300) * scale, ctx.n(2, 3), not ctx.quick)
     res.stats['seconds:exhaustive-real-code'] = round(time.time() - tt, 1); tt = time.time()
     for h, l in zip(eh, el):
         hists.append(h); facets.append(('exhaustive', True)); lines.append(l)
     # random
-    rh = random_histories(ctx, res, int(ctx.n(60, 1200) * scale), int(ctx.n(3, 40) * scale), 60)
+    rh = random_histories(ctx, res, int(ctx.n(60, 900) * scale), int(ctx.n(3, 30) * scale), 60)
     for h in rh:
         hists.append(h); facets.append(('random', False))
         h.dump_from = 0
